@@ -393,7 +393,7 @@ func (w *World) runConcTxn(t *Thread, prog *TxnProg) {
 	st.txnOf[tid] = mt
 	w.stats.Txns++
 	x := &txnCtx{w: w, c: w.primary, mt: mt, checkReads: true, exact: false, thread: tid, abort: prog.Abort}
-	err := w.primary.Query(func(txn *column.Txn) error {
+	err := queryRecover(w.primary, func(txn *column.Txn) error {
 		x.txn = txn
 		for i := range prog.Ops {
 			if w.stopped() {
@@ -405,6 +405,10 @@ func (w *World) runConcTxn(t *Thread, prog *TxnProg) {
 		}
 		if w.stopped() {
 			return errStop
+		}
+		if prog.Abort && prog.Panic && w.viol == nil {
+			w.stats.fault("client-panic-in-transaction")
+			panic(errClientPanic)
 		}
 		if prog.Abort {
 			return errAbort
